@@ -192,6 +192,9 @@ pub fn check_kf(tc: &TreeCase, st: &mut Stats, tolerate_kf: bool) -> Result<(), 
             }
         }
     }
+    if low.contains("<selectedcontent") && low.contains("<option selected") {
+        st.label("selectedcontent and a selected option");
+    }
     if canon.contains("<html table>") {
         st.label("table in document");
     }
